@@ -6,11 +6,11 @@ from vlib import common
 
 LEVEL = "exploration"
 EXHAUSTIVE = True
-SHARDS = {"quick": 1, "thorough": 1}
+SHARDS = {"quick": 2, "thorough": 2}   # the same exhaustive sweep twice: shard 1 runs under `python -O` with DEBUG logging
 TIMEOUT = {"quick": 300, "thorough": 600}
 MIN_EVALUATIONS = {"quick": 3000, "thorough": 3000}  # fewer oracle evaluations than this means the workload collapsed: inconclusive
 RULE = ("enumerates every EnumMap subclass found by walking the pycomm3 package x every public member x "
-        "9 letter-casing classes (name->code by [] and get, membership), every member code (code->name by [] "
+        "9 letter-casing classes (name->code by [], get, get with a positional / keyword default, membership), every member code (code->name by [] "
         "and get, membership, name carries the code), 40 non-member probes per table for membership consistency, "
         "DataTypes.get_type for every code, Services.from_reply for every service, status text for 0..255, "
         "every (status, extended status) pair of EXTEND_CODES at every encodable size; every (table, member, code) of the CIP code lists as "
@@ -39,6 +39,9 @@ def casings(name, rng):
         "rand": "".join(c.upper() if rng.random() < 0.5 else c.lower() for c in name),
     }
     return out
+
+
+SENTINEL = object()
 
 
 def same(a, b):
@@ -104,6 +107,12 @@ def run(ctx):
                 if not ok or not same(got, val):
                     res.violation(f"name-get:{cls_}", f"{short}.get({spelled!r}) -> {got!r}, expected {val!r}",
                                   {"table": tname, "name": name, "spelled": spelled})
+                # `get` with a default (positional and keyword): the default is for keys the table lacks, a member resolves as ever
+                for how_, call_ in (("get-default", lambda s_: M.get(s_, SENTINEL)), ("get-default-kw", lambda s_: M.get(s_, default=SENTINEL))):
+                    ok, got = attempt(how_, short, call_, spelled)
+                    if not ok or not same(got, val):
+                        res.violation(f"name-{how_}:{cls_}", f"{short}.get({spelled!r}, <default>) -> {'the default' if got is SENTINEL else repr(got)}, expected {val!r}",
+                                      {"table": tname, "name": name, "spelled": spelled})
                 ok, got = attempt("contains", short, M.__contains__, spelled)
                 if not ok or got is not True:
                     res.violation(f"name-contains:{cls_}", f"{spelled!r} in {short} -> {got!r}",
